@@ -93,6 +93,63 @@ def replay_state(st):
     return bad, stress, n_assert
 
 
+def relational_twins(args):
+    """Beyond the lattice (4-5 receptors, 6-8 sources, real-valued entries): no exact expectation is available, but the
+    property itself relates the two twins: membership equal, ranges and unique intensities * s equal, predictions / c equal."""
+    seed, n = args
+    import_dreye()
+    from dreye.api.convex import in_hull_from_A, range_of_solutions
+    from dreye.api.optimize.lsq_linear import lsq_linear
+    rng = np.random.default_rng(seed)
+    bad, done = [], 0
+    for _ in range(n):
+        d = int(rng.integers(4, 6))
+        m = d + int(rng.integers(1, 3))
+        if rng.random() < 0.6:
+            # tutorial-shaped: broad overlapping receptor sensitivities x narrow-band sources (strongly correlated rows)
+            wl = np.arange(300.0, 701.0, 2.0)
+            g = lambda mu, sd: np.exp(-0.5 * ((wl - mu) / sd) ** 2)
+            fp = np.sort(rng.uniform(340, 520, d))
+            lp = np.sort(rng.uniform(360, 600, m))
+            F = np.array([g(mu, 55.0) for mu in fp])
+            L = np.array([g(mu, 18.0) for mu in lp])
+            L = L / L.sum(axis=1, keepdims=True)
+            A = F @ L.T
+            A = A / (A @ np.full(m, 5.0)).min()
+        else:
+            A = rng.uniform(0.02, 0.2, (d, m))
+        lb, ub = np.zeros(m), np.full(m, 10.0)
+        Xin = rng.uniform(2.0, 8.0, (3, m))               # strictly inside the bounds
+        B = Xin @ A.T
+        Bout = B[:1] * 4.0                                 # far outside
+        where0 = dict(nrec=d, nsrc=m, relational=True)
+        try:
+            base_r = range_of_solutions(B, A, lb, ub)
+            base_in = in_hull_from_A(np.vstack([B, Bout]), A, lb, ub)
+            base_fit = lsq_linear(A, np.vstack([B, Bout]), lb=lb, ub=ub, return_pred=True, solver="CLARABEL")
+            for sc, cc in ((10.0, 10.0), (100.0, 1.0), (0.5, 20.0), (200.0, 0.5)):
+                ext = np.max(B) * cc
+                if not (1.0 <= ext <= 100.0 and 0.05 <= 10.0 / sc <= 10.0):
+                    continue
+                A2, ub2 = A * sc * cc, ub / sc
+                tw_r = range_of_solutions(B * cc, A2, lb, ub2)
+                tw_in = in_hull_from_A(np.vstack([B, Bout]) * cc, A2, lb, ub2)
+                tw_fit = lsq_linear(A2, np.vstack([B, Bout]) * cc, lb=lb, ub=ub2, return_pred=True, solver="CLARABEL")
+                done += 1
+                w = dict(s=sc, c=cc, **where0)
+                if not np.array_equal(base_in, tw_in):
+                    bad.append(("C15.membership", w, base_in.tolist(), tw_in.tolist(), None))
+                for a, b in zip(base_r, tw_r):
+                    if np.max(np.abs(a - b * sc)) > 1e-6 * 10:
+                        bad.append(("C15.range", w, a.tolist(), (b * sc).tolist(), None))
+                        break
+                if np.max(np.abs(base_fit[1] - tw_fit[1] / cc)) > 2e-2 / min(1.0, cc) * 2:
+                    bad.append(("C15.prediction", w, base_fit[1].tolist(), (tw_fit[1] / cc).tolist(), None))
+        except Exception as ex:
+            bad.append(("C15.no-error", dict(exc=type(ex).__name__, **where0), None, repr(ex)[:200], None))
+    return bad, done
+
+
 def run(ctx):
     thorough = ctx.tier == "thorough"
     res = tlc.run("mc/MC_C15", cfg="mc/MC_C15_%s.cfg" % ("thorough" if thorough else "quick"), dump=True, timeout=3400)
@@ -112,6 +169,12 @@ def run(ctx):
         ctx.count("systems:" + st["fam"])
         for k in range(n_assert):
             ctx.nontrivial.add((repr(st["sys"]), k))
+    nrel = 0
+    for bad, done in pmap(relational_twins, [(ctx.seed * 100 + k, 6 if not thorough else 20) for k in range(16)], chunksize=1):
+        nrel += done
+        for clause, where, exp, obs, t in bad:
+            ctx.violation(clause, where, dict(relational=True), exp, obs)
+    ctx.extra["relational_twin_pairs_beyond_lattice"] = nrel
     ctx.traces += len(sts) * len(SCALES) ** 2
     ctx.extra["stress_disagreements"] = stress_tot
     ctx.extra["theorem_checked_systems"] = sum(1 for s in sts if s["theorem_checked"])
